@@ -311,11 +311,13 @@ Section Parse.
   (* every call consumes a byte or is the last of its loop: 2 * length + 4 steps always suffice *)
   Definition parse_fuel (json : list Z) : nat := (2 * length json + 4)%nat.
 
-  (* jbn_from_json: rc and *node *)
+  (* jbn_from_json: rc and *node.  No error and no root (a lone `]`, which the value parser hands back to a caller that
+     does not exist; the empty text) is JBL_ERROR_PARSE_JSON since 3d4d0bc *)
   Definition from_json (json : list Z) : res (option jval) :=
     match parse_value (parse_fuel json) 0 (skip_bom json) with
     | Err e => Err e
-    | Ok (ov, _) => Ok ov
+    | Ok (None, _) => Err E_JSON
+    | Ok (Some v, _) => Ok (Some v)
     end.
 End Parse.
 
